@@ -47,8 +47,9 @@ type finder struct {
 	file    *token.File
 	scanner *scanner.Scanner
 
-	tok token.Token // current token
-	pos token.Pos   // position of current token
+	tok  token.Token // current token
+	pos  token.Pos   // position of current token
+	prev token.Token // token before the current token
 
 	// Offset of tok inside the original source file. This is equal to
 	// file.Offset(pos).
@@ -70,6 +71,7 @@ func (f *finder) append(aug Augmentation) {
 
 // Advances the scanner.
 func (f *finder) next() {
+	f.prev = f.tok
 	f.pos, f.tok, _ = f.scanner.Scan()
 	f.offset = f.file.Offset(f.pos)
 }
@@ -187,7 +189,14 @@ func (f *finder) ident() {
 func (f *finder) ellipsis() {
 	pos := f.pos
 	off := f.offset
+	arrayLen := f.prev == token.LBRACK
 	f.next() // ...
+
+	// [...]T
+	if arrayLen {
+		// The length of an array type is valid Go. Leave it unchanged.
+		return
+	}
 
 	// The scanner tracks some parsing-related state, implicitly inserting
 	// SEMICOLON tokens when newlines are encountered at the end of a
